@@ -3484,6 +3484,229 @@ theorem write_ack_ladder (d : Device) (r : WriteReq) (hdev : deviceOK d = true)
   | some e => have := (writeLadder_spec d r hdev).1 e hl; rw [this] at h; simp at h
 
 
+/-! ### the write ladder, code by code -/
+
+theorem stdLadder_cases (s : Slot) (v : WVal) (idx : Option Nat) :
+    (stdLadder s v idx = some .writeAccessDenied ∧ s.d.mutable = false) ∨
+    (stdLadder s v idx = some invalidDatatype ∧ s.d.mutable = true ∧
+        ∃ e, ladder s.d.dt v idx = .error e) ∨
+    (stdLadder s v idx = none ∧ s.d.mutable = true ∧ ladder s.d.dt v idx = .ok ()) := by
+  unfold stdLadder
+  cases hm : s.d.mutable with
+  | false => simp
+  | true =>
+    cases hl : ladder s.d.dt v idx with
+    | error e => simp
+    | ok u => simp
+
+theorem slotLadder_cases (pvdt : DT) (v : WVal) (p : Int) :
+    (slotLadder pvdt v p = some .writeAccessDenied ∧ p = 0) ∨
+    (slotLadder pvdt v p = some .invalidArrayIndex ∧ p ≠ 0 ∧ (p < 1 ∨ p > 16)) ∨
+    (slotLadder pvdt v p = some invalidDatatype ∧ 1 ≤ p ∧ p ≤ 16) ∨
+    (slotLadder pvdt v p = none ∧ 1 ≤ p ∧ p ≤ 16) := by
+  unfold slotLadder
+  by_cases h0 : p = 0
+  · simp [h0]
+  · by_cases hr : p < 1 ∨ p > 16
+    · simp [h0, hr]
+    · have hb : 1 ≤ p ∧ p ≤ 16 := by omega
+      simp only [h0, hr, ↓reduceIte]
+      cases v with
+      | null => simp [hb]
+      | many e its => simp [hb]
+      | one e' it =>
+        simp only
+        split
+        · split <;> simp [hb]
+        · simp [hb]
+
+/-- the answers `obj.WriteProperty` can decide -/
+theorem objLadder_codes (d : Device) (o : Object) (pid : Nat) (s : Slot) (v : WVal) (idx : Option Nat)
+    (prio : Option Int) (e : Refusal) (h : objLadder d o pid s v idx prio = some e) :
+    e = .writeAccessDenied ∨ e = invalidDatatype ∨ e = .invalidArrayIndex := by
+  have hstd : ∀ e, stdLadder s v idx = some e → e = .writeAccessDenied ∨ e = invalidDatatype := by
+    intro e he
+    rcases stdLadder_cases s v idx with ⟨h1, _⟩ | ⟨h1, _⟩ | ⟨h1, _⟩ <;> rw [h1] at he <;> simp at he
+    · exact Or.inl he.symm
+    · exact Or.inr he.symm
+  have hplain : ∀ e, plainLadder d o s v idx = some e → e = .writeAccessDenied ∨ e = invalidDatatype := by
+    intro e he
+    unfold plainLadder at he
+    split at he
+    · simp at he; exact Or.inl he.symm
+    · simp at he; exact Or.inl he.symm
+    · split at he
+      · simp at he; exact Or.inl he.symm
+      · split at he
+        · split at he
+          · split at he
+            · exact hstd e he
+            · simp at he
+          · simp at he
+        · simp at he
+    · split at he
+      · split at he
+        · simp at he
+        · split at he
+          · simp at he
+          · exact hstd e he
+      · exact hstd e he
+    · exact hstd e he
+  have hslot : ∀ dt p e, slotLadder dt v p = some e →
+      e = .writeAccessDenied ∨ e = invalidDatatype ∨ e = .invalidArrayIndex := by
+    intro dt p e he
+    rcases slotLadder_cases dt v p with ⟨h1, _⟩ | ⟨h1, _⟩ | ⟨h1, _⟩ | ⟨h1, _⟩ <;> rw [h1] at he <;> simp at he
+    · exact Or.inl he.symm
+    · exact Or.inr (Or.inr he.symm)
+    · exact Or.inr (Or.inl he.symm)
+  unfold objLadder at h
+  split at h
+  · rcases hplain e h with h | h
+    · exact Or.inl h
+    · exact Or.inr (Or.inl h)
+  · split at h
+    · exact hslot _ _ e h
+    · split at h
+      · split at h
+        · simp at h; exact Or.inl h.symm
+        · exact hslot _ _ e h
+      · rcases hplain e h with h | h
+        · exact Or.inl h
+        · exact Or.inr (Or.inl h)
+
+theorem preLadder_codes (o : Object) (s : Slot) (idx : Option Nat) (e : Refusal)
+    (h : preLadder o s idx = some e) :
+    (e = .notAnArray ∧ ∃ i, idx = some i ∧ condNotArray s = true) ∨
+    (e = .invalidArrayIndex ∧ ∃ i, idx = some i ∧ condBadIndex o s i = true) ∨
+    (e = .unknownProperty ∧ condAbsent s idx = true) := by
+  unfold preLadder at h
+  cases idx with
+  | none => simp only at h; split at h <;> simp at h; subst h; simp_all
+  | some i =>
+    simp only at h
+    split at h
+    · simp at h; subst h; simp_all
+    · split at h
+      · simp at h; subst h; simp_all
+      · split at h
+        · simp at h; subst h; simp_all
+        · simp at h
+
+/-- WriteProperty answers unknown-property **iff** the object exists and either
+    has no such property or the property has no value -/
+theorem write_unknown_property_iff (d : Device) (r : WriteReq) (hdev : deviceOK d = true) :
+    (writeService d r).2 = .error .unknownProperty ↔
+      ∃ o, findObj r.oid d.objs = some o ∧
+        (findSlot r.pid o.props = none ∨
+         ∃ s, findSlot r.pid o.props = some s ∧ condAbsent s r.idx = true) := by
+  rw [write_error_iff d r _ hdev rfl]
+  unfold writeLadder
+  cases ho : findObj r.oid d.objs with
+  | none => simp
+  | some o =>
+    simp only [Option.some.injEq, exists_eq_left']
+    cases hs : findSlot r.pid o.props with
+    | none => simp
+    | some s =>
+      simp only [Option.some.injEq, exists_eq_left', reduceCtorEq, false_or]
+      cases hpl : preLadder o s r.idx with
+      | some e0 =>
+        simp only [Option.some.injEq]
+        rcases preLadder_codes o s r.idx e0 hpl with ⟨he, i, hi, hna⟩ | ⟨he, i, hi, hbi⟩ | ⟨he, habs⟩
+        · subst he
+          simp only [reduceCtorEq, false_iff]
+          intro habs; rw [hi] at habs
+          have := (condAbsent_some o s i habs).1; rw [this] at hna; simp at hna
+        · subst he
+          simp only [reduceCtorEq, false_iff]
+          intro habs; rw [hi] at habs
+          have := (condAbsent_some o s i habs).2; rw [this] at hbi; simp at hbi
+        · subst he; simp [habs]
+      | none =>
+        have hnabs : condAbsent s r.idx = false := by
+          cases hb : condAbsent s r.idx with
+          | false => rfl
+          | true =>
+            unfold preLadder at hpl
+            cases hi : r.idx with
+            | none => rw [hi] at hpl hb; simp [hb] at hpl
+            | some i =>
+              rw [hi] at hpl hb
+              obtain ⟨h1, h2⟩ := condAbsent_some o s i hb
+              simp [h1, h2, hb] at hpl
+        simp only [hnabs, Bool.false_eq_true, iff_false]
+        split
+        · simp
+        · split
+          · rename_i e0 hc
+            obtain ⟨n, hn⟩ := castOut_error_is_reject _ _ _ _ hc
+            subst hn; simp
+          · rename_i v hc
+            intro hl
+            rcases objLadder_codes _ _ _ _ _ _ _ _ hl with h | h | h <;> simp [invalidDatatype] at h
+
+/-- WriteProperty answers property-is-not-an-array **iff** an index is given and
+    the property is computed by the device or a non-array served by
+    Property.ReadProperty -/
+theorem write_not_an_array_iff (d : Device) (r : WriteReq) (hdev : deviceOK d = true) :
+    (writeService d r).2 = .error .notAnArray ↔
+      ∃ o s i, findObj r.oid d.objs = some o ∧ findSlot r.pid o.props = some s ∧
+        r.idx = some i ∧ condNotArray s = true := by
+  rw [write_error_iff d r _ hdev rfl]
+  unfold writeLadder
+  cases ho : findObj r.oid d.objs with
+  | none => simp
+  | some o =>
+    cases hs : findSlot r.pid o.props with
+    | none =>
+      simp only [hs, Option.some.injEq, reduceCtorEq, false_iff]
+      rintro ⟨o', s', i, ho', hs', _⟩
+      cases ho'; rw [hs] at hs'; simp at hs'
+    | some s =>
+      have hR : (∃ o' s' i, some o = some o' ∧ findSlot r.pid o'.props = some s' ∧
+          r.idx = some i ∧ condNotArray s' = true) ↔ ∃ i, r.idx = some i ∧ condNotArray s = true := by
+        constructor
+        · rintro ⟨o', s', i, ho', hs', hi, hna⟩
+          cases ho'; rw [hs] at hs'; cases hs'; exact ⟨i, hi, hna⟩
+        · rintro ⟨i, hi, hna⟩; exact ⟨o, s, i, rfl, hs, hi, hna⟩
+      rw [hR]
+      simp only [hs]
+      cases hpl : preLadder o s r.idx with
+      | some e0 =>
+        simp only [Option.some.injEq]
+        rcases preLadder_codes o s r.idx e0 hpl with ⟨he, i, hi, hna⟩ | ⟨he, i, hi, hbi⟩ | ⟨he, habs⟩
+        · subst he; simp [hi, hna]
+        · subst he
+          simp only [reduceCtorEq, false_iff, not_exists, not_and]
+          intro j hj; rw [hi] at hj; simp at hj; subst hj
+          simp [condBadIndex_notArray o s i hbi]
+        · subst he
+          simp only [reduceCtorEq, false_iff, not_exists, not_and]
+          intro j hj; rw [hj] at habs
+          simp [(condAbsent_some o s j habs).1]
+      | none =>
+        have hrhs : ¬ ∃ i, r.idx = some i ∧ condNotArray s = true := by
+          rintro ⟨i, hi, hna⟩
+          unfold preLadder at hpl; rw [hi] at hpl; simp [hna] at hpl
+        simp only [hrhs, iff_false]
+        split
+        · simp
+        · split
+          · rename_i e0 hc
+            obtain ⟨n, hn⟩ := castOut_error_is_reject _ _ _ _ hc
+            subst hn; simp
+          · rename_i v hc
+            intro hl
+            rcases objLadder_codes _ _ _ _ _ _ _ _ hl with h | h | h <;> simp [invalidDatatype] at h
+
+/-- the datatype refusal: WriteProperty answers with a Reject **iff** the value
+    does not decode for the datatype the handler casts to, or it decodes and
+    the serving class finds it invalid (`objLadder` = invalid-parameter-datatype) -/
+theorem write_reject_iff (d : Device) (r : WriteReq) (n : Nat) (hdev : deviceOK d = true) :
+    (writeService d r).2 = .error (.reject n) ↔ writeLadder d r = some (.reject n) :=
+  write_error_iff d r _ hdev rfl
+
+
 /-! ## non-vacuity: concrete instances that meet the hypotheses
 
   A device built from the GENERATED table: an analogValue object of a vendor
